@@ -202,6 +202,10 @@ def run_shards(binary, gen, tier, nshards, outdir, extra_args=(), deadline=0, en
             ei = dict(e)
             ei.update(env_fn(i))
         p = subprocess.run(cmd, env=ei, stdout=subprocess.PIPE, stderr=subprocess.STDOUT, text=True)
+        if p.returncode != 0 and "verifharness/gen/" in p.stdout and ".init()" in p.stdout and "main.main()" not in p.stdout:
+            # the generated bindings panic while their package initialises (before the harness runs)
+            first = [l for l in p.stdout.split("\n") if l.startswith("panic:")] or [p.stdout.strip().split("\n")[0]]
+            raise BindingsBroken(gen, ei.get("VERIF_UNIVERSE", "?"), "generated bindings panic during package initialisation: %s\n%s" % (first[0], p.stdout[-3000:]))
         if p.returncode != 0 or not os.path.exists(out):
             raise Internal("harness shard %d failed (exit %d):\n%s" % (i, p.returncode, p.stdout[-8000:]))
         return json.load(open(out))
